@@ -47,3 +47,14 @@ package checker
 //@   requires v != nil && node != nil
 //@   assigns obj(v)
 //@   ensures[innermost] len(v.collections) > 0 && v.err == nil ==> t == res("checker.indexType", v.collections[len(v.collections)-1])
+
+// call checking (C03): an argument that is let through is untyped (nil), interface-typed, or assignable to its
+// parameter — reflect.Value.Call accepts nothing else
+//@ func checker.setTypeForIntegers
+//@   assigns *
+//@ func checker.visitor.checkFunc returns r
+//@   property C03
+//@   mode panics
+//@   assigns *
+//@   requires v != nil && node != nil
+//@   loop 0 body-ensures[arg-assignable] t == nil || kind(t) == 20 || assignable(t, in)
